@@ -169,6 +169,11 @@ Fixpoint search_loop (fuel : nat) (h : heap) (v : view) (slm : slmode) (vol pare
       else
         let name := pi_part pi1 in
         let last := pi_is_last pi1 in
+        if Nat.eqb parent vol && negb (match get h parent with
+                                      | Some n => check_permission (node_meta n) OpenLookup (v_user v)
+                                      | None => false end)
+        then {| sr_parent := Some parent; sr_child := None; sr_pi := out_pi pi1 saved; sr_err := EPermDenied |}
+        else
         match alookup str_eqb name (children h parent) with
         | None =>
             {| sr_parent := Some parent; sr_child := None; sr_pi := out_pi pi1 saved;
